@@ -84,6 +84,17 @@ theorem runSpec_stateless {S σ ρ : Type} (f : σ → ρ) (st : S) (seqs : List
   | nil => simp [runSpec]
   | cons sd rest ih => simp [runSpec, ih]
 
+/-- If no simulation changes the shared state (e.g. the configured initial state), every result is
+the simulation of its own item from that same state: the trajectories are independent. -/
+theorem runSpec_preserving {S σ ρ : Type} (run : S → σ → ρ × S) (st : S) (seqs : List σ)
+    (h : ∀ sd ∈ seqs, (run st sd).2 = st) :
+    runSpec run st seqs = seqs.map (fun sd => (run st sd).1) := by
+  induction seqs with
+  | nil => simp [runSpec]
+  | cons sd rest ih =>
+    simp only [runSpec, List.map_cons]
+    rw [h sd (List.mem_cons_self ..), ih (fun x hx => h x (List.mem_cons_of_mem _ hx))]
+
 /-! ### counters -/
 
 theorem total_bump (c : Counter) (k : String) (v : Nat) :
